@@ -1087,6 +1087,21 @@ impl<'a> Exchange<'a> {
         self.id
     }
 
+    /// The group data message counter value reserved for this (group) exchange, if any -
+    /// i.e. the value `Session::pre_send` will stamp on the outgoing message.
+    #[cfg(all(feature = "verif", feature = "groups"))]
+    pub fn verif_group_data_ctr(&self) -> Option<u32> {
+        self.matter.with_state(|state| {
+            state
+                .sessions
+                .get(self.id.session_id())?
+                .exchanges
+                .get(self.id.exchange_index())?
+                .as_ref()?
+                .group_data_ctr
+        })
+    }
+
     /// Get the Matter stack instance associated with this exchange
     pub fn matter(&self) -> &'a Matter<'a> {
         self.matter
